@@ -259,11 +259,16 @@ let cmd_cuts file =
   (try while true do
     let l = input_line stdin in
     match split ' ' (String.trim l) with
-    | [m; pad] ->
+    | m :: pad :: alter ->
         let m = int_of_string m and pad = int_of_string pad in
+
         let rec zeros k acc = if k = 0 then acc else zeros (k - 1) (N0 :: acc) in
         let rec pre i acc = if i < 0 then acc else pre (i - 1) (arr.(i) :: acc) in
-        let bytes = pre (m - 1) (zeros pad []) in
+        let bytes = pre (min m (Array.length arr) - 1) (zeros pad []) in
+        let bytes = match alter with
+          | [off; v] -> let off = int_of_string off and v = n_of_int (int_of_string v) in
+                        List.mapi (fun i x -> if i = off then v else x) bytes
+          | _ -> bytes in
         let (bs, out) = read_journal hash compress decompress bytes in
         List.iter (fun b -> print_endline (batch_str b)) bs;
         (match out with
